@@ -2,7 +2,7 @@
 //! against the sequential API.
 
 use crate::prng::fnv1a;
-use crate::sched::{DiffScheduler, GuideState, GuidedScheduler, Recorded, RecordingScheduler, Trace};
+use crate::sched::{DiffScheduler, FairTailScheduler, GuideState, GuidedScheduler, Recorded, RecordingScheduler, Trace};
 use crate::workload::Workload;
 use chrono::NaiveDate;
 use ipt_verif_rt::Probes;
@@ -41,6 +41,10 @@ pub struct ProbeAgg {
     pub clock_reads: u64,
     #[serde(default)]
     pub clock_ticks: u64,
+    /// executions that ran into the step bound under an *unfair* schedule (a task that busy-waits
+    /// kept being chosen) and completed correctly once the same prefix was continued fairly
+    #[serde(default)]
+    pub step_limits_resolved_by_fair_continuation: u64,
 }
 
 impl ProbeAgg {
@@ -97,6 +101,7 @@ impl ProbeAgg {
         self.yields += o.yields;
         self.clock_reads += o.clock_reads;
         self.clock_ticks += o.clock_ticks;
+        self.step_limits_resolved_by_fair_continuation += o.step_limits_resolved_by_fair_continuation;
         self.max_partitions = self.max_partitions.max(o.max_partitions);
     }
 }
@@ -135,6 +140,9 @@ pub enum Mode {
     Sparse { overrides: Vec<(u32, u32)>, randoms: Vec<u64> },
     /// follow the trace and report where it departs from the default policy
     Diff(Trace),
+    /// follow the trace, then continue with a fair (least-recently-run) policy: decides whether a
+    /// step-limit hit is a livelock of the code or an artefact of an unfair schedule
+    FairTail(Trace),
 }
 
 fn describe_mismatch(got: &Times, exp: &Times) -> String {
@@ -173,11 +181,20 @@ pub fn max_steps_for(w: &Workload) -> usize {
     64 * (w.workers.unwrap_or(1) + 4) + 10_000
 }
 
-fn config(w: &Workload) -> Config {
+/// extra steps granted to the fair continuation of a schedule that hit the step bound
+pub const FAIR_TAIL_STEPS: usize = 400_000;
+
+fn config(w: &Workload, mode: &Mode) -> Config {
     let mut cfg = Config::new();
     cfg.stack_size = 1 << 20;
     cfg.failure_persistence = FailurePersistence::None;
-    cfg.max_steps = MaxSteps::FailAfter(max_steps_for(w));
+    let bound = max_steps_for(w);
+    cfg.max_steps = MaxSteps::FailAfter(match mode {
+        Mode::FairTail(t) => t.tasks.len() + FAIR_TAIL_STEPS,
+        // a failure found in a fair continuation is recorded with its full (longer) schedule
+        Mode::Strict(t) | Mode::Diff(t) if t.tasks.len() > bound => t.tasks.len() + 16,
+        _ => bound,
+    });
     cfg.silence_warnings = true;
     cfg
 }
@@ -267,9 +284,10 @@ pub fn run_workload(w: &Workload, mode: Mode) -> Outcome {
         Mode::Strict(t) => Box::new(GuidedScheduler::strict(t, guide.clone())),
         Mode::Sparse { overrides, randoms } => Box::new(GuidedScheduler::sparse(overrides.clone(), randoms.clone(), guide.clone())),
         Mode::Diff(t) => Box::new(DiffScheduler::new(t, diff_out.clone())),
+        Mode::FairTail(t) => Box::new(FairTailScheduler::new(t)),
     };
     let sched = RecordingScheduler::new(boxed, rec.clone());
-    let runner = Runner::new(sched, config(w));
+    let runner = Runner::new(sched, config(w, &mode));
     let res = catch_unwind(AssertUnwindSafe(|| runner.run(scenario)));
 
     let mut r = rec.lock().unwrap();
@@ -286,6 +304,40 @@ pub fn run_workload(w: &Workload, mode: Mode) -> Outcome {
         r.max_steps_seen = r.max_steps_seen.max(n);
         r.current = Trace::default();
     }
+    // A step-limit hit says "this schedule did not finish within the bound". Schedulers such as PCT
+    // are deliberately unfair: a task that busy-waits (spins on an atomic, polls with try_recv) can
+    // be chosen for ever, which no operating system does. The property quantifies over schedules a
+    // real scheduler can produce, so the same prefix is continued fairly: if the execution then
+    // completes with the right result it was an artefact and is only counted; if it still does not
+    // finish it is a livelock and is reported; any other failure of the continuation is reported
+    // with the continuation's own schedule.
+    let mut resolved = 0u64;
+    if out.class == "step-limit" && !matches!(mode, Mode::FairTail(_)) {
+        let prefix = out.failing_trace.clone().unwrap_or_default();
+        drop(r);
+        let o2 = run_workload(w, Mode::FairTail(prefix));
+        r = rec.lock().unwrap();
+        match o2.class.as_str() {
+            "ok" => {
+                out.class = "ok".into();
+                out.message = String::new();
+                out.failing_trace = None;
+                out.failing_switches = 0;
+                out.failing_preemptions = 0;
+                resolved = 1;
+            }
+            "step-limit" => {
+                out.message = format!("{} [still not finished after {} further steps of a fair (least-recently-run) continuation: livelock]", out.message, FAIR_TAIL_STEPS);
+            }
+            _ => {
+                out.class = o2.class.clone();
+                out.message = format!("{} [in the fair continuation of a schedule that had hit the step bound]", o2.message);
+                out.failing_trace = o2.failing_trace.clone();
+                out.failing_switches = o2.failing_switches;
+                out.failing_preemptions = o2.failing_preemptions;
+            }
+        }
+    }
     out.executions = r.executions;
     out.steps_total = r.steps_total;
     out.max_steps_seen = r.max_steps_seen;
@@ -296,6 +348,7 @@ pub fn run_workload(w: &Workload, mode: Mode) -> Outcome {
     out.distinct_interleavings = r.interleavings.len() as u64;
     out.stopped_no_concurrency = r.stopped_no_concurrency;
     out.probes = agg.lock().unwrap().clone();
+    out.probes.step_limits_resolved_by_fair_continuation += resolved;
     out.diverged = guide.lock().unwrap().diverged.clone();
     out.overrides = diff_out.lock().unwrap().clone();
     let mut il: Vec<u64> = r.interleavings.iter().copied().collect();
